@@ -108,6 +108,11 @@ pub trait AsInput<'i> {
 ''' % (ASINPUT_SPECS, ASINPUT_CONTRACT.rstrip(','))
 
 
+# the methods every unit declares (contracts only): the matchers the nodes use plus the read-only accessors, so that code
+# consulting the cursor (`byte_offset`, `start`, `end`, `get`, ..) stays within the verified text
+INPUT_BASIC = ['span', 'at_start', 'at_end', 'match_string', 'byte_offset', 'input', 'start', 'end', 'get']
+
+
 def input_trait_decl(methods, position_impl=False):
     """Contracts-only declaration of trait Input.  position_impl=True additionally declares as_position and the
     (contracts-only, external_body) impl of Input for Position — proved in unit `input` — so that code converting a
